@@ -507,7 +507,7 @@ def run_wsgi(kind, n, ending, choices):
             if not (sched.op("P") == "start" and fut.f.cancelled()):
                 left = 1
         obs = [list(out), outcome, [prod.state(), 1 if prod.begun else 0], prod.nexts, prod.cleanup, prod.closes,
-               left, list(cnt)]
+               left, list(cnt), 1 if closed else 0]
     finally:
         sched.stop()
         for t in sched.threads:
@@ -703,7 +703,7 @@ def run_asgi(kind, n, ending, choices):
             outcome = stuck
         left = len([t for t in asyncio.all_tasks(loop) if not t.done() and t is not main])
         obs = [list(out), outcome, [prod.state(), 1 if prod.begun else 0], prod.nexts, prod.cleanup, prod.closes,
-               left, list(cnt)]
+               left, list(cnt), 1 if closed else 0]
     finally:
         _time.time = real_time
         try:
@@ -745,7 +745,8 @@ def oracle(case, obs):
         if obs[1] == "Hung":
             return ("hang-" + name, "the case did not finish: %s" % obs[2])
         return ("driver-" + name + "-" + str(obs[1]), "driver raised %s: %s" % (obs[1], obs[2]))
-    out, outcome, (gst, begun), nexts, cleanup, closes, left, (pa, ta, na) = obs
+    out, outcome, (gst, begun), nexts, cleanup, closes, left, (pa, ta, na) = obs[:8]
+    was_closed = bool(obs[8]) if len(obs) > 8 else True
     if outcome == "deadlock":
         return ("deadlock-" + name, "no thread/task can take a step and the response has not returned; delivered %r, "
                 "generator state %d, producer answers %d, unfinished relay/tasks %d" % (out, gst, nexts, left))
@@ -770,6 +771,10 @@ def oracle(case, obs):
         return ("delivery-" + name, "delivered items %r are not 0,1,2,... in order" % (out,))
     if len(items) > nexts or (ending != 2 and len(items) > n):
         return ("delivery-" + name, "more items delivered (%r) than produced (%d)" % (out, nexts))
+    # a stream that ended by itself (WSGI: the iterable was exhausted, not closed; ASGI: the final body was sent) has
+    # delivered EVERYTHING the producer yielded before it stopped
+    if ending == 0 and outcome == "return" and not was_closed and items != list(range(n)):
+        return ("loss-at-end-" + name, "the stream ended normally having delivered %r of the %d items the producer yielded" % (items, n))
     if -2 in out and (out.index(-2) != len(out) - 1 or outcome != "return"):
         return ("final-body-" + name, "final body in the wrong place: %r outcome %s" % (out, outcome))
     if kind in (K_AS, K_AE) and outcome == "return" and (not out or out[-1] != -2):
